@@ -287,6 +287,9 @@ func body(r *explore.Run, rep *report.R, sc string, depth int, form usageForm) {
 	s.OnWrite = append(s.OnWrite, w.onWrite)
 	user := s.Client("user")
 	ctx := context.Background()
+	// u1 exists (unreconciled) from the start: every interesting history
+	// begins with its creation.
+	_ = user.Create(ctx, mkUsage("u1", form))
 
 	u2form := usageForm{ofVersion: "v2"}
 	if form.ofVersion == "v2" {
@@ -346,16 +349,16 @@ func body(r *explore.Run, rep *report.R, sc string, depth int, form usageForm) {
 			err := user.Delete(ctx, res(usedGK, ver, "r"), opts...)
 			after := s.Peek(usedKey)
 			desc = fmt.Sprintf("DELETE used via %s policy=%q -> err=%v (usages naming it %v, ready %v)", ver, pol, err, all, ready)
-			deleted := after == nil || after.GetDeletionTimestamp() != nil
+			deleted := after == nil || (before.GetDeletionTimestamp() == nil && after.GetDeletionTimestamp() != nil)
 			if len(ready) > 0 {
-				if err == nil || deleted {
+				if deleted || (err == nil && before.GetDeletionTimestamp() == nil) {
 					r.Failf("M1/delete-allowed-while-in-use", "DELETE of the used resource through %s with policy %q was allowed although Usage(s) %v are ready and not being deleted", ver, pol, ready)
 				}
 				want := pol
 				if want == "" {
 					want = "Background"
 				}
-				if got := after.GetAnnotations()[usage.AnnotationKeyDeletionAttempt]; got != want {
+				if got := after.GetAnnotations()[usage.AnnotationKeyDeletionAttempt]; got != want && err != nil {
 					r.Failf("M2/attempt-not-recorded", "refused DELETE with policy %q was not recorded on the used resource (annotation %q)", pol, got)
 				}
 				refused++
@@ -410,9 +413,9 @@ func TestCheck(t *testing.T) {
 		[]string{"simkube models the API server, serving the used kind under any version", "admission webhook dispatch follows the repository's webhook configuration (operations, objectSelector); failurePolicy and TLS are not modelled"},
 		[]string{"simkube", "controller-runtime admission types"},
 	)
-	depth := 5
+	depth := 4
 	if report.Thorough() {
-		depth = 7
+		depth = 6
 	}
 	rep.Bound("depth", depth)
 	rep.Bound("max_faults", 1)
@@ -422,7 +425,7 @@ func TestCheck(t *testing.T) {
 		for _, by := range []int{0, 1, 2} {
 			for _, v := range []string{"v1", "v2"} {
 				for _, rp := range []bool{false, true} {
-					if !report.Thorough() && rp && (sel == 2 || by == 2) {
+					if !report.Thorough() && (rp && (sel != 0 || by == 2) || sel == 1) {
 						continue
 					}
 					forms = append(forms, usageForm{selector: sel > 0, matchCtrl: sel == 2, by: by > 0, bySelector: by == 2, ofVersion: v, replay: rp})
